@@ -650,6 +650,27 @@ type c18Scenario struct {
 	Rules  string   `json:"rules"`
 	Online bool     `json:"online"`
 	Tags   []string `json:"tags,omitempty"`
+	// Global command line flags placed before the sub-command (values documented for --enabled / --disabled:
+	// check names, name(tag) and name(+tag) forms, regexps): the configuration pint runs with is file + flags
+	Flags []string `json:"flags,omitempty"`
+}
+
+// c18FlagStratum: the documented forms of --disabled / --enabled (a check name, a regexp over check names, the
+// name(server) / name(+tag) forms of a disable comment) and values with regexp metacharacters, with and without a
+// configuration file.  `pint config` with the same flags is the load verdict.
+func c18FlagStratum(basicRules string) []c18Scenario {
+	vals := []string{"promql/rate", "promql/.*", "alerts/.+", "promql/series(prom)", "promql/rate(+a)", "promql/series(+prom)", "rule/label(marker:true)",
+		"(", "[a", "*", "a{2,1}", `\`, `\Qx`, "", "promql/(rate|series)", "promql/series(prom", "+", "(?i)PROMQL/RATE", "^promql/rate$"}
+	cfgs := []string{"", "rule {\n  label \"marker\" {\n    required = true\n  }\n}\n", "checks {\n  disabled = [\"promql/rate\"]\n}\n"}
+	var out []c18Scenario
+	for vi, v := range vals {
+		for fi, flag := range []string{"--disabled", "--enabled"} {
+			cfg := cfgs[(vi+fi)%len(cfgs)]
+			out = append(out, c18Scenario{ID: fmt.Sprintf("flag-%d%s", vi, flag), Config: cfg, Rules: basicRules, Flags: []string{flag, v}, Tags: []string{"flag-stratum", flag}})
+		}
+	}
+	out = append(out, c18Scenario{ID: "flag-two", Config: "", Rules: basicRules, Flags: []string{"--disabled", "promql/rate(+a)", "--disabled", "alerts/.*", "--enabled", "promql/series(+b)"}, Tags: []string{"flag-stratum", "both"}})
+	return out
 }
 
 func c18GenRules(r *rand.Rand) (string, []string) {
@@ -859,6 +880,11 @@ func c18Configs(r *rand.Rand, rep *runReport, cwd string, n int) {
 		rep.hist("cfg:stratum=" + sc.Tags[1])
 	}
 	scens = append(scens, ms...)
+	fs := c18FlagStratum(basicRules)
+	for _, sc := range fs {
+		rep.hist("cfg:stratum=flag:" + sc.Tags[1])
+	}
+	scens = append(scens, fs...)
 	for i := 0; i < n; i++ {
 		g := &c18Gen{r: r, badP: []float64{0, 0.05, 0.05, 0.25}[r.Intn(4)], used: map[string]bool{}}
 		cfg, hasProm := g.config(srv.URL)
@@ -882,9 +908,10 @@ func c18Configs(r *rand.Rand, rep *runReport, cwd string, n int) {
 		writeFile(filepath.Join(dir, ".pint.hcl"), sc.Config)
 		writeFile(filepath.Join(dir, "rules", "0.yml"), sc.Rules)
 		// load verdict: `pint config` only loads and prints the configuration
-		rc, se := c18RunLimited(dir, 40*time.Second, "--no-color", "-c", ".pint.hcl", "config")
+		base := append([]string{"--no-color", "-c", ".pint.hcl"}, sc.Flags...)
+		rc, se := c18RunLimited(dir, 40*time.Second, append(append([]string{}, base...), "config")...)
 		if rc == -1 {
-			rc, se = c18RunLimited(dir, 240*time.Second, "--no-color", "-c", ".pint.hcl", "config")
+			rc, se = c18RunLimited(dir, 240*time.Second, append(append([]string{}, base...), "config")...)
 		}
 		out[i].loadRC, out[i].loadErr = rc, se
 		modes := [][]string{{"--offline"}}
@@ -892,7 +919,7 @@ func c18Configs(r *rand.Rand, rep *runReport, cwd string, n int) {
 			modes = append(modes, []string{})
 		}
 		for _, m := range modes {
-			a := append([]string{"--no-color", "-c", ".pint.hcl"}, m...)
+			a := append(append([]string{}, base...), m...)
 			a = append(a, "lint", "--min-severity", "info", "rules")
 			rc2, se2 := c18RunLimited(dir, 60*time.Second, a...)
 			if rc2 == -1 {
@@ -995,7 +1022,11 @@ func runC18(args []string) int {
 	cw := newCaseWriter(cwd, "Run.C18", 60)
 	cw.preamble = "Open Scope N_scope.\n"
 	id := 0
-	c18Templates(r, rep, cw, cwd, n, &id)
+	// search mode (something is already broken, a failing INPUT is wanted): the template correspondence cases are skipped,
+	// the whole budget goes to configurations run through the binary
+	if argStr(args, "--templates", "yes") == "yes" {
+		c18Templates(r, rep, cw, cwd, n, &id)
+	}
 	cw.flush()
 	rep.CaseFiles = cw.files
 	c18Configs(r, rep, cwd, n)
